@@ -4,7 +4,6 @@ import (
 	"bytes"
 	"encoding/json"
 	"fmt"
-	"math"
 	"reflect"
 	"strconv"
 	"strings"
@@ -75,7 +74,44 @@ type renderOut struct {
 	Params     string
 }
 
-func renderBoth(e *expr.Expression) (o renderOut, panicked any) {
+// canonParams writes the two parameter lists so that equal strings mean equal lists.
+// Parameters are compared by value: the property itself concedes that a whole number
+// written as a float (5.0) comes back as an integer, so where one side holds an int and
+// the other a float64 the two are the same value if the int converts to that float
+// (5 and 5.0; 100000000000000020 and 1.0000000000000002e+17, whose JSON text is that
+// integer). Within one kind the comparison is exact.
+func canonParams(a, b []any) (string, string) {
+	one := func(p any, asFloat bool) string {
+		switch v := p.(type) {
+		case int:
+			if asFloat {
+				return "n:" + fmtNum(float64(v))
+			}
+			return fmt.Sprintf("i:%d", v)
+		case float64:
+			if asFloat {
+				return "n:" + fmtNum(v)
+			}
+			return "f:" + fmtNum(v)
+		}
+		return fmt.Sprintf("%T:%v", p, p)
+	}
+	isInt := func(p any) bool { _, ok := p.(int); return ok }
+	isFloat := func(p any) bool { _, ok := p.(float64); return ok }
+	var sa, sb []string
+	for i := 0; i < len(a) || i < len(b); i++ {
+		mixed := i < len(a) && i < len(b) && ((isInt(a[i]) && isFloat(b[i])) || (isFloat(a[i]) && isInt(b[i])))
+		if i < len(a) {
+			sa = append(sa, one(a[i], mixed))
+		}
+		if i < len(b) {
+			sb = append(sb, one(b[i], mixed))
+		}
+	}
+	return strings.Join(sa, " ; "), strings.Join(sb, " ; ")
+}
+
+func renderBoth(e *expr.Expression) (o renderOut, params []any, panicked any) {
 	defer func() { panicked = recover() }()
 	d := driver.NewPostgresDriver()
 	s, err := d.Render(e)
@@ -88,24 +124,7 @@ func renderBoth(e *expr.Expression) (o renderOut, panicked any) {
 	if perr != nil {
 		o.PErr = "error"
 	}
-	// parameters are compared by value: a whole number may be an int on one side and
-	// a float64 on the other (the property's own exemption), 5 and 5.0 are the same value
-	var ps2 []string
-	for _, p := range pp {
-		switch v := p.(type) {
-		case int:
-			ps2 = append(ps2, fmtNum(float64(v))+fmt.Sprintf("|%d", v))
-		case float64:
-			if v == math.Trunc(v) && math.Abs(v) < 1<<62 {
-				ps2 = append(ps2, fmtNum(v)+fmt.Sprintf("|%d", int64(v)))
-			} else {
-				ps2 = append(ps2, fmtNum(v))
-			}
-		default:
-			ps2 = append(ps2, fmt.Sprintf("%T:%v", p, p))
-		}
-	}
-	o.Params = strings.Join(ps2, " ; ")
+	params = pp
 	return
 }
 
@@ -167,8 +186,9 @@ func checkC12(c InCase) (f *report.Failure, nontrivial bool, cls string) {
 		return report.Failf("string", "String() differs for %s at byte %d: original ...%q... decoded ...%q... (json %.300s)", c.Quoted, at, w(s1), w(s2), b), false, ""
 	}
 	stage = "Render"
-	r1, p1 := renderBoth(e)
-	r2, p2 := renderBoth(&d)
+	r1, pp1, p1 := renderBoth(e)
+	r2, pp2, p2 := renderBoth(&d)
+	r1.Params, r2.Params = canonParams(pp1, pp2)
 	if p1 != nil || p2 != nil {
 		if fmt.Sprint(p1) != fmt.Sprint(p2) {
 			return report.Failf("render-panic", "rendering panics differently for %s: original %v decoded %v", c.Quoted, p1, p2), false, ""
